@@ -927,7 +927,7 @@ fn exhaustive(sink: &mut Sink, depth: usize, shard: (u64, u64)) {
         |_, _, t| OpKind::Ins { id: 0, kh: 0, kt: t, vh: 0, vt: t + 1 },
         |_, _, t| OpKind::Ins { id: 1, kh: 0, kt: t, vh: 1, vt: t + 1 },
         |s, o, t| OpKind::Ins { id: 2, kh: 0, kt: t, vh: s.max.saturating_sub(s.cur).saturating_sub(o).min(1 << 40), vt: t + 1 },
-        |s, o, t| OpKind::Ins { id: 1, kh: 0, kt: t, vh: (s.max.saturating_sub(s.cur).saturating_sub(o) + 1).min(1 << 40), vt: t + 1 },
+        |s, o, t| OpKind::Ins { id: 1, kh: 0, kt: t, vh: s.max.saturating_sub(s.cur).saturating_sub(o).saturating_add(1).min(1 << 40), vt: t + 1 },
         |s, o, t| OpKind::Ins { id: 0, kh: 1, kt: t, vh: s.max.saturating_sub(o).min(1 << 40), vt: t + 1 },
         |_, _, t| OpKind::TIns { id: 2, kh: 0, kt: t, vh: 0, vt: t + 1 },
         |s, o, t| OpKind::TIns { id: 0, kh: 0, kt: t, vh: s.max.saturating_sub(s.cur).saturating_sub(o).min(1 << 40), vt: t + 1 },
@@ -936,8 +936,8 @@ fn exhaustive(sink: &mut Sink, depth: usize, shard: (u64, u64)) {
         |_, _, _| OpKind::Rm(1),
         |_, _, _| OpKind::RmLru,
         |_, _, _| OpKind::GetLru,
-        |s, _, _| OpKind::MutSet { id: 0, h: s.ord.iter().find(|e| e.k.id == 0).map(|e| e.v.heap + s.max.saturating_sub(s.cur)).unwrap_or(0).min(1 << 40) },
-        |s, _, _| OpKind::MutSet { id: 1, h: s.ord.iter().find(|e| e.k.id == 1).map(|e| e.v.heap + s.max.saturating_sub(s.cur) + 1).unwrap_or(0).min(1 << 40) },
+        |s, _, _| OpKind::MutSet { id: 0, h: s.ord.iter().find(|e| e.k.id == 0).map(|e| e.v.heap.saturating_add(s.max.saturating_sub(s.cur))).unwrap_or(0).min(1 << 40) },
+        |s, _, _| OpKind::MutSet { id: 1, h: s.ord.iter().find(|e| e.k.id == 1).map(|e| e.v.heap.saturating_add(s.max.saturating_sub(s.cur)).saturating_add(1)).unwrap_or(0).min(1 << 40) },
         |_, _, _| OpKind::MutSet { id: 0, h: 0 },
         |s, _, _| OpKind::SetMax(s.cur.saturating_sub(1)),
         |s, _, _| OpKind::SetMax(s.cur),
@@ -1016,7 +1016,13 @@ fn replay(sink: &mut Sink, path: &str) {
 }
 
 fn main() {
-    std::panic::set_hook(Box::new(|_| {}));
+    // panics are part of normal operation here (injected into user callbacks, overflow checks of the crate under
+    // test): keep them quiet unless asked to show where they come from
+    if std::env::var("VERIF_SHOW_PANICS").is_ok() {
+        std::panic::set_hook(Box::new(|info| { eprintln!("panic: {}", info); }));
+    } else {
+        std::panic::set_hook(Box::new(|_| {}));
+    }
     let args: Vec<String> = std::env::args().collect();
     let get = |name: &str| -> Option<String> {
         args.iter().position(|a| a == name).and_then(|i| args.get(i + 1).cloned())
